@@ -102,28 +102,28 @@ theorem applyWrites_perm (ws ws' : List (Nat × Nat)) (f : Nat → Nat) (hp : ws
       have := key ws' ws hp.symm hnd' w' h2
       rw [h1] at this; cases this
 
-/-- a memory-write description of one wavefront: from every admissible memory the wavefront runs to
-    `S_ENDPGM` within the fuel (no barrier, no fault), leaves the LDS as it was, changes the memory
-    content exactly by the writes `wr`, and the memory stays admissible -/
+/-- a memory-write description of one wavefront: from every admissible memory (and any LDS content) the
+    wavefront runs to `S_ENDPGM` within the fuel (no barrier, no fault), changes the memory content
+    exactly by the writes `wr`, and the memory stays admissible -/
 def WaveSpec (P : Program) (base fuel : Nat) (Ok : Mem → Prop) (w : Wave) (wr : List (Nat × Nat)) : Prop :=
-  ∀ m l, Ok m → ∃ w' m', runWave P base fuel w m l = .ok (w', m', l) ∧ w'.completed = true ∧
+  ∀ m l, Ok m → ∃ w' m' l', runWave P base fuel w m l = .ok (w', m', l') ∧ w'.completed = true ∧
     get m' = applyWrites wr (get m) ∧ Ok m'
 
 /-- the inner loop of `runWG` over wavefronts that have write descriptions -/
 theorem pass_effect (P : Program) (base fuel : Nat) (Ok : Mem → Prop) (wr : Wave → List (Nat × Nat)) :
     ∀ (ws : List Wave), (∀ w ∈ ws, WaveSpec P base fuel Ok w (wr w)) → ∀ m l, Ok m →
-    ∃ ws' m', pass P base fuel ws m l = .ok (ws', m', l) ∧ allDone ws' = true ∧
+    ∃ ws' m' l', pass P base fuel ws m l = .ok (ws', m', l') ∧ allDone ws' = true ∧
       get m' = applyWrites (ws.flatMap wr) (get m) ∧ Ok m' := by
   intro ws
   induction ws with
   | nil =>
     intro _ m l hok
-    exact ⟨[], m, rfl, rfl, rfl, hok⟩
+    exact ⟨[], m, l, rfl, rfl, rfl, hok⟩
   | cons w ws ih =>
     intro hs m l hok
-    obtain ⟨w', m1, hr, hc, hg, hok1⟩ := hs w (List.mem_cons_self ..) m l hok
-    obtain ⟨ws', m2, hp, hd, hg2, hok2⟩ := ih (fun x hx => hs x (List.mem_cons_of_mem _ hx)) m1 l hok1
-    refine ⟨w' :: ws', m2, ?_, ?_, ?_, hok2⟩
+    obtain ⟨w', m1, l1, hr, hc, hg, hok1⟩ := hs w (List.mem_cons_self ..) m l hok
+    obtain ⟨ws', m2, l2, hp, hd, hg2, hok2⟩ := ih (fun x hx => hs x (List.mem_cons_of_mem _ hx)) m1 l1 hok1
+    refine ⟨w' :: ws', m2, l2, ?_, ?_, ?_, hok2⟩
     · simp only [pass, hr, hp]
     · simp only [allDone, List.all_cons, hc, Bool.true_and] at hd ⊢
       exact hd
@@ -135,7 +135,7 @@ theorem runWG_effect (P : Program) (base fuel rounds : Nat) (Ok : Mem → Prop) 
     (ws : List Wave) (hs : ∀ w ∈ ws, WaveSpec P base fuel Ok w (wr w)) (m l : Mem) (hok : Ok m) :
     ∃ m', runWG P base fuel (rounds + 1) ws m l = .ok m' ∧
       get m' = applyWrites (ws.flatMap wr) (get m) ∧ Ok m' := by
-  obtain ⟨ws', m', hp, hd, hg, hok'⟩ := pass_effect P base fuel Ok wr ws hs m l hok
+  obtain ⟨ws', m', l', hp, hd, hg, hok'⟩ := pass_effect P base fuel Ok wr ws hs m l hok
   by_cases hall : allDone ws = true
   · -- nothing runs: every wavefront is already completed, and `pass` returns the memory unchanged
     refine ⟨m, by simp only [runWG, hall, if_true], ?_, hok⟩
